@@ -371,6 +371,41 @@ func run(c *rig.Ctx) {
 		c.Case(rig.Hash(uint64(i), r.U64()))
 	})
 
+	// long lives: the timer's behaviour must not depend on how long it has been running. With
+	// TMA=FF every increment overflows, so an overflow (and its reload and request) falls on
+	// every machine cycle of the right phase for more than two wraps of any 16-bit cycle count;
+	// every phase of every rate is covered.
+	type life struct {
+		tac  uint8
+		off  uint16
+		tma  uint8
+		long int
+	}
+	var lives []life
+	for _, tac := range []uint8{5, 6, 7, 4} {
+		period := map[uint8]int{5: 4, 6: 16, 7: 64, 4: 256}[tac]
+		for ph := 0; ph < period; ph++ {
+			lives = append(lives, life{tac, uint16(ph * 4), 0xff, 140000})
+		}
+	}
+	lives = append(lives, life{5, 0, 0xfe, 140000}, life{5, 4, 0x00, 300000}, life{4, 0, 0xf0, 300000})
+	c.Part("long-lives", int64(len(lives)), func(i int64, r *rig.Rng) {
+		l := lives[i]
+		st := start{counter: l.off, tac: l.tac, tima: 0xff, tma: l.tma}
+		p := newPair(st)
+		for k := 0; k < l.long; k++ {
+			if msg := p.apply(op{0, 0}); msg != "" {
+				c.Violate("long-life", fmt.Sprintf("start %+v, machine cycle %d of the timer's life: %s", st, k+1, msg), nil)
+				return
+			}
+			if p.ref.unspecified != "" {
+				p = newPair(start{counter: p.ref.counter, tac: p.ref.tac, tima: 0xff, tma: p.ref.tma})
+			}
+		}
+		c.Count("long_life_cycles", int64(l.long))
+		c.Exact(1)
+	})
+
 	// whole-machine path (runFrame-order stepping raises IF bit 2): the mooneye timer ROMs
 	romrun.FollowROMs(c, "roms", romrun.Select("acceptance/timer/", "div_timing", "instr_timing"), romrun.FollowOpts{Verdict: true})
 }
